@@ -86,7 +86,7 @@ InDomain(R) == \A f \in Files : LET F == {x \in Ids : R[x].file = f} IN
                   /\ Cardinality(F) >= T.folds
                   /\ \A x \in F : Cardinality({y \in F : R[y].spec = R[x].spec}) <= Cardinality(F) \div T.folds
 \* <<failed clauses, number of (model, file) folds inside C11's domain>>
-Result == LET R == RowsF IN IF ~InDomain(R) THEN <<{}, 0>>
+Result == LET R == RowsF IN IF ~InDomain(R) THEN <<{}, -1>>       \* -1: outside the domain, accepted vacuously
           ELSE LET K == Check(R)  C == K.clauses IN <<{c \in DOMAIN C : ~C[c]}, IF T.calibrated /\ T.raised = "" THEN K.ndom ELSE 0>>
 Init == tid \in 1..Len(Traces)
 Spec == Init /\ [][UNCHANGED tid]_tid
